@@ -908,7 +908,7 @@ func (g *Gen) execInstr(in ssa.Instruction, st *State) {
 		case *types.Slice:
 			s := g.val(x.X, st)
 			g.boundsCheck(idx.T, fmt.Sprintf("(sl.len %s)", s.T), st, "index "+g.textOf(x.X)+"["+g.textOf(x.Index)+"]")
-			abs := g.defineRaw("ix", g.idxSort().SMT(), g.idxAdd(fmt.Sprintf("(sl.off %s)", s.T), idx.T))
+			abs := g.defineRaw("ix", g.idxSort().SMT(), g.elemIdx(fmt.Sprintf("(sl.off %s)", s.T), idx.T))
 			g.addrs[x] = &Addr{rk: rElem, arr: fmt.Sprintf("(sl.arr %s)", s.T), idx: abs, typ: t.Elem(), text: g.textOf(x.X) + "[" + g.textOf(x.Index) + "]"}
 		case *types.Pointer:
 			at := t.Elem().Underlying().(*types.Array)
@@ -1058,6 +1058,14 @@ func (g *Gen) boundsCheck(idx, n string, st *State, what string) {
 		goal = fmt.Sprintf("(and (<= 0 %s) (< %s %s))", idx, idx, n)
 	}
 	g.oblige("bounds", "C", "index in range: "+what, st.reach, goal, true)
+}
+
+// elemIdx is the position of element i of a slice with offset off in its backing array.
+func (g *Gen) elemIdx(off, i string) string {
+	if g.indexFn && !g.bv {
+		return fmt.Sprintf("(sl.ix %s %s)", off, i)
+	}
+	return g.idxAdd(off, i)
 }
 
 func (g *Gen) idxAdd(a, b string) string {
